@@ -284,6 +284,7 @@ pub struct Store {
     pub tracing: bool,
     pub trace: Vec<Call>,
     pub keys: Vec<Vec<u8>>,
+    pub bw: Option<std::thread::JoinHandle<()>>,
 }
 
 fn frac(s: &str) -> Option<f64> {
@@ -385,6 +386,7 @@ impl Store {
         crate::conc::install(io.as_ref());
         Store {
             threads: Default::default(),
+            bw: None,
             dir: root.join("store"),
             root,
             cfg: cfg_json(&[]).unwrap(),
@@ -707,6 +709,18 @@ impl Store {
             ["t.reset"] => {
                 self.threads.reset();
                 Some("ok".into())
+            }
+            ["bw.start", ms] => {
+                let h = self.handle.as_ref()?.clone();
+                self.bw = Some(crate::conc::bw_start(h, ms.parse().ok()?));
+                Some("ok".into())
+            }
+            ["bw.stop"] => {
+                let n = crate::conc::bw_stop();
+                if let Some(j) = self.bw.take() {
+                    let _ = j.join();
+                }
+                Some(format!("sets {}", n))
             }
             ["whocalls"] => {
                 // who made the tracked file-system calls since the last `whocalls`
